@@ -63,7 +63,9 @@ NewestCfgIdx(s) == IF CfgIdxs(s) = {} THEN 0 ELSE SetMax(CfgIdxs(s))
 GhostInit(N) == [elected |-> {}, grants |-> {}, committed |-> << >>,
                  maxTerm |-> [n \in N |-> 0], acks |-> {}, bad |-> {}, acked |-> [n \in N |-> 0],
                  \* client ledger (C07): logical clock, submitted updates, completed updates, reads/barriers awaiting an answer
-                 clock |-> 0, subs |-> {}, upd |-> {}, reads |-> {}]
+                 clock |-> 0, subs |-> {}, upd |-> {}, reads |-> {},
+                 \* <<node, term>>: the election of that term on that node was started by a timeout-now request of the leader
+                 perm |-> {}]
 
 IsGrantEv(ev) == /\ "kind" \in DOMAIN ev /\ ev.kind = "voteReq"
                  /\ "result" \in DOMAIN ev /\ ev.result = "success"
@@ -133,8 +135,10 @@ GrantDurableStep(after, ev) ==
 
 \* C17(a): a vote request without transfer permission, from somebody other than the
 \* known leader, neither wins the vote nor changes the voter's term
-LeaderStickinessStep(before, after, ev) ==
-    ("kind" \in DOMAIN ev /\ ev.kind = "voteReq" /\ "result" \in DOMAIN ev /\ ~ev.transfer
+LeaderStickinessStep(gh, before, after, ev) ==
+    ("kind" \in DOMAIN ev /\ ev.kind = "voteReq" /\ "result" \in DOMAIN ev
+       \* the transfer flag counts only for the election the leader's timeout-now request started
+       /\ (~ev.transfer \/ <<ev.from, ev.term>> \notin gh.perm)
        /\ before[ev.n].up /\ before[ev.n].leader # None /\ before[ev.n].leader # ev.from)
       => (ev.result # "success" /\ after[ev.n].term = before[ev.n].term /\ after[ev.n].vote = before[ev.n].vote)
 
@@ -250,7 +254,7 @@ StepViolations(gh, before, after, ev, T) ==
   \cup (IF MonotoneStep(before, after, T) THEN {} ELSE {"C19_Monotone"})
   \cup (IF TermNeverBackStep(gh, after, T) THEN {} ELSE {"C05_TermMonotone"})
   \cup (IF GrantDurableStep(after, ev) THEN {} ELSE {"C05_GrantDurable"})
-  \cup (IF LeaderStickinessStep(before, after, ev) THEN {} ELSE {"C17_LeaderStickiness"})
+  \cup (IF LeaderStickinessStep(gh, before, after, ev) THEN {} ELSE {"C17_LeaderStickiness"})
   \cup (IF RestartOKStep(gh, before, after, ev) THEN {} ELSE {"C10_RestartOK"})
   \cup (IF AllTasksCompleteStep(ev) THEN {} ELSE {"C15_AllTasksComplete"})
   \cup (IF TaskCompletesOnceStep(ev) THEN {} ELSE {"C15_TaskCompletesOnce"})
@@ -275,6 +279,14 @@ GhostStep(gh, before, after, ev, T) ==
      maxTerm   |-> [n \in DOMAIN gh.maxTerm |-> IF n \in T /\ after[n].up THEN Max(gh.maxTerm[n], after[n].term) ELSE gh.maxTerm[n]],
      acks      |-> gh.acks,
      acked     |-> [n \in DOMAIN gh.acked |-> IF n \in T \/ IsAppendAck(ev) THEN AckedAfter(gh, before, after, ev, n) ELSE gh.acked[n]],
+     perm      |-> IF "kind" \in DOMAIN ev /\ ev.kind = "timeoutNowReq" /\ "result" \in DOMAIN ev /\ ev.result = "success"
+                          /\ after[ev.n].up /\ after[ev.n].state = "C"
+                       THEN gh.perm \cup {<<ev.n, after[ev.n].term>>}
+                       \* further election rounds of the same candidacy keep the permission (candidate.onTimeout)
+                       ELSE IF "kind" \in DOMAIN ev /\ ev.kind = "timeout" /\ "state" \in DOMAIN ev /\ ev.state = "C"
+                               /\ before[ev.n].up /\ after[ev.n].up /\ after[ev.n].state = "C" /\ <<ev.n, before[ev.n].term>> \in gh.perm
+                       THEN gh.perm \cup {<<ev.n, after[ev.n].term>>}
+                       ELSE gh.perm,
      clock     |-> ClientLedger(gh, after, ev).clock, subs |-> ClientLedger(gh, after, ev).subs,
      upd       |-> ClientLedger(gh, after, ev).upd,
      reads     |-> ClientLedger(gh, after, ev).reads,
